@@ -4,7 +4,7 @@
    result = 0 :: payload for a normal return, 1 :: [code] for a Python exception,
    2 :: [] for "unknown function / malformed arguments" (harness bug, never a verdict). *)
 From Coq Require Import ZArith List Bool String.
-From MP Require Import Algo.Base Algo.Libmpf Algo.Libmpc Algo.Libmpi Algo.Ctxfun Algo.Str Algo.Caches Algo.Ctxstore.
+From MP Require Import Algo.Base Algo.Libmpf Algo.Libmpc Algo.Libmpi Algo.Ctxfun Algo.Str Algo.Caches Algo.Ctxstore Algo.Isqrt.
 Import ListNotations.
 Open Scope Z_scope.
 
@@ -73,6 +73,10 @@ Definition table_mpf : list (string * handler) := [
   ("from_str_parts"%string, fun a => match a with [m; e; p; r] => Some (out_res enc_mpf (from_str_parts m e p (rnd_of_Z r))) | _ => None end);
   ("isqrt"%string, fun a => match a with [n] => Some [0; Z.sqrt n] | _ => None end);
   ("sqrtrem"%string, fun a => match a with [n] => Some (let '(q, r) := Z.sqrtrem n in [0; q; r]) | _ => None end);
+  ("isqrt_small_newton"%string, fun a => match a with [x; r0] => Some (match isqrt_small_newton x r0 with Some v => [0; v] | None => [2] end) | _ => None end);
+  ("isqrt_fast_smallx"%string, fun a => match a with [x; y0] => Some [0; isqrt_fast_smallx x y0] | _ => None end);
+  ("isqrt_fast_bigx"%string, fun a => match a with [x; r0] => Some [0; isqrt_fast_bigx x r0] | _ => None end);
+  ("sqrtrem_fix"%string, fun a => match a with [x; ap] => Some (match sqrtrem_fix 200 x ap with Some (y, r) => [0; y; r] | None => [2] end) | _ => None end);
   ("trailing"%string, fun a => match a with [n] => Some [0; trailing n] | _ => None end);
   ("mpf_sum"%string, fun a => match a with (p :: r :: ab :: rest)%list => Some (out_mpf (mpf_sum (dec_mpfs rest) p (rnd_of_Z r) (negb (ab =? 0)))) | _ => None end)
 ].
@@ -147,6 +151,38 @@ Definition table_cplx : list (string * handler) := [
   ("mpi_pos"%string, fun a => match a with [a1;a2;a3;a4;a5;a6;a7;a8;p] => Some (0 :: enc_pair (mpi_pos (P8 a1 a2 a3 a4 a5 a6 a7 a8) p)) | _ => None end);
   ("mpi_abs"%string, fun a => match a with [a1;a2;a3;a4;a5;a6;a7;a8;p] => Some (0 :: enc_pair (mpi_abs (P8 a1 a2 a3 a4 a5 a6 a7 a8) p)) | _ => None end);
   ("mpi_square"%string, fun a => match a with [a1;a2;a3;a4;a5;a6;a7;a8;p] => Some (0 :: enc_pair (mpi_square (P8 a1 a2 a3 a4 a5 a6 a7 a8) p)) | _ => None end);
+  ("mpi_outward"%string, fun a => match a with [s; m; e; b; p; r] => Some (out_mpf (mpi_outward (Mpf s m e b) p (rnd_of_Z r))) | _ => None end);
+  ("mpi_exp_from"%string, fun a => match a with [a1;a2;a3;a4;a5;a6;a7;a8;b1;b2;b3;b4;b5;b6;b7;b8;p] =>
+      Some (0 :: enc_pair (mpi_exp_from (P8 a1 a2 a3 a4 a5 a6 a7 a8) (Mpf b1 b2 b3 b4) (Mpf b5 b6 b7 b8) p)) | _ => None end);
+  ("mpi_log_from"%string, fun a => match a with [b1;b2;b3;b4;b5;b6;b7;b8;p] =>
+      Some (0 :: enc_pair (mpi_log_from (Mpf b1 b2 b3 b4) (Mpf b5 b6 b7 b8) p)) | _ => None end);
+  ("mpi_finalize"%string, fun a => match a with [s; m; e; b; p; r] => Some (out_mpf (mpi_finalize (Mpf s m e b) p (rnd_of_Z r))) | _ => None end);
+  ("mpi_cos_sin_from"%string, fun a => match a with [a1;a2;a3;a4;a5;a6;a7;a8; c1;c2;c3;c4; s1;s2;s3;s4; na; d1;d2;d3;d4; t1;t2;t3;t4; nb; p] =>
+      Some (let '(c, s) := mpi_cos_sin_from (P8 a1 a2 a3 a4 a5 a6 a7 a8) (Mpf c1 c2 c3 c4, Mpf s1 s2 s3 s4, na) (Mpf d1 d2 d3 d4, Mpf t1 t2 t3 t4, nb) p in
+            0 :: enc_pair c ++ enc_pair s)%list | _ => None end);
+  ("mpi_tan_from"%string, fun a => match a with [a1;a2;a3;a4;a5;a6;a7;a8; c1;c2;c3;c4; s1;s2;s3;s4; na; d1;d2;d3;d4; t1;t2;t3;t4; nb; p] =>
+      Some (out_res enc_pair (mpi_tan_from (P8 a1 a2 a3 a4 a5 a6 a7 a8) (Mpf c1 c2 c3 c4, Mpf s1 s2 s3 s4, na) (Mpf d1 d2 d3 d4, Mpf t1 t2 t3 t4, nb) p)) | _ => None end);
+  ("mpi_cot_from"%string, fun a => match a with [a1;a2;a3;a4;a5;a6;a7;a8; c1;c2;c3;c4; s1;s2;s3;s4; na; d1;d2;d3;d4; t1;t2;t3;t4; nb; p] =>
+      Some (out_res enc_pair (mpi_cot_from (P8 a1 a2 a3 a4 a5 a6 a7 a8) (Mpf c1 c2 c3 c4, Mpf s1 s2 s3 s4, na) (Mpf d1 d2 d3 d4, Mpf t1 t2 t3 t4, nb) p)) | _ => None end);
+  ("mpci_abs"%string, fun a => match a with [a1;a2;a3;a4;a5;a6;a7;a8;b1;b2;b3;b4;b5;b6;b7;b8;p] =>
+      Some (out_res enc_pair (mpci_abs (P8 a1 a2 a3 a4 a5 a6 a7 a8, P8 b1 b2 b3 b4 b5 b6 b7 b8) p)) | _ => None end);
+  ("mpi_pow_from"%string, fun a => match a with [t1;t2;t3;t4;t5;t6;t7;t8; l1;l2;l3;l4; m1;m2;m3;m4; e1;e2;e3;e4; f1;f2;f3;f4; p] =>
+      Some (0 :: enc_pair (mpi_pow_from (P8 t1 t2 t3 t4 t5 t6 t7 t8) (Mpf l1 l2 l3 l4) (Mpf m1 m2 m3 m4) (Mpf e1 e2 e3 e4) (Mpf f1 f2 f3 f4) p)) | _ => None end);
+  ("mpi_cosh_sinh_from"%string, fun a => match a with [a1;a2;a3;a4;a5;a6;a7;a8; e1;e2;e3;e4; f1;f2;f3;f4; p] =>
+      Some (out_res (fun cs => enc_pair (fst cs) ++ enc_pair (snd cs))%list
+                    (mpi_cosh_sinh_from (P8 a1 a2 a3 a4 a5 a6 a7 a8) (Mpf e1 e2 e3 e4) (Mpf f1 f2 f3 f4) p)) | _ => None end);
+  ("mpci_exp_from"%string, fun a => match a with [a1;a2;a3;a4;a5;a6;a7;a8;b1;b2;b3;b4;b5;b6;b7;b8; e1;e2;e3;e4; f1;f2;f3;f4;
+                                                  c1;c2;c3;c4; s1;s2;s3;s4; na; d1;d2;d3;d4; t1;t2;t3;t4; nb; p] =>
+      Some (0 :: enc_mpci (mpci_exp_from (P8 a1 a2 a3 a4 a5 a6 a7 a8, P8 b1 b2 b3 b4 b5 b6 b7 b8) (Mpf e1 e2 e3 e4) (Mpf f1 f2 f3 f4)
+                                         (Mpf c1 c2 c3 c4, Mpf s1 s2 s3 s4, na) (Mpf d1 d2 d3 d4, Mpf t1 t2 t3 t4, nb) p)) | _ => None end);
+  ("mpci_cos_from"%string, fun a => match a with [a1;a2;a3;a4;a5;a6;a7;a8;b1;b2;b3;b4;b5;b6;b7;b8;
+                                                  c1;c2;c3;c4; s1;s2;s3;s4; na; d1;d2;d3;d4; t1;t2;t3;t4; nb; e1;e2;e3;e4; f1;f2;f3;f4; p] =>
+      Some (out_res enc_mpci (mpci_cos_from (P8 a1 a2 a3 a4 a5 a6 a7 a8, P8 b1 b2 b3 b4 b5 b6 b7 b8)
+                                            (Mpf c1 c2 c3 c4, Mpf s1 s2 s3 s4, na) (Mpf d1 d2 d3 d4, Mpf t1 t2 t3 t4, nb) (Mpf e1 e2 e3 e4) (Mpf f1 f2 f3 f4) p)) | _ => None end);
+  ("mpci_sin_from"%string, fun a => match a with [a1;a2;a3;a4;a5;a6;a7;a8;b1;b2;b3;b4;b5;b6;b7;b8;
+                                                  c1;c2;c3;c4; s1;s2;s3;s4; na; d1;d2;d3;d4; t1;t2;t3;t4; nb; e1;e2;e3;e4; f1;f2;f3;f4; p] =>
+      Some (out_res enc_mpci (mpci_sin_from (P8 a1 a2 a3 a4 a5 a6 a7 a8, P8 b1 b2 b3 b4 b5 b6 b7 b8)
+                                            (Mpf c1 c2 c3 c4, Mpf s1 s2 s3 s4, na) (Mpf d1 d2 d3 d4, Mpf t1 t2 t3 t4, nb) (Mpf e1 e2 e3 e4) (Mpf f1 f2 f3 f4) p)) | _ => None end);
   ("mpi_sqrt"%string, fun a => match a with [a1;a2;a3;a4;a5;a6;a7;a8;p] => Some (out_res enc_pair (mpi_sqrt (P8 a1 a2 a3 a4 a5 a6 a7 a8) p)) | _ => None end);
   ("mpi_delta"%string, fun a => match a with [a1;a2;a3;a4;a5;a6;a7;a8;p] => Some (out_mpf (mpi_delta (P8 a1 a2 a3 a4 a5 a6 a7 a8) p)) | _ => None end);
   ("mpi_mid"%string, fun a => match a with [a1;a2;a3;a4;a5;a6;a7;a8;p] => Some (out_mpf (mpi_mid (P8 a1 a2 a3 a4 a5 a6 a7 a8) p)) | _ => None end);
